@@ -439,3 +439,7 @@ LEVEL_TEXT = ("Kernel-checked Lean theorems state, for all dividends and all non
               "run against the rebuilt library on every check with dividends constructed backwards from (q,d,r).")
 LEVEL_NOTE = ("Trusted: Lean kernel; the wrapper models are hand-written mirrors of mpz/*.c tied by differential execution; inside them the mpn callees are "
               "replaced by their specification; the multi-limb mpn division code is compared against the mathematical quotient, not proved.")
+
+
+# source pins: the C files the Lean model cites (see tools/pins.py)
+PINS = [('mpn/generic/sb_bdiv_q.c', None), ('mpn/generic/sb_div_qr.c', None), ('mpz/cdiv_q.c', None), ('mpz/cdiv_q_ui.c', None), ('mpz/cdiv_qr.c', None), ('mpz/cdiv_r.c', None), ('mpz/cdiv_r_ui.c', None), ('mpz/cfdiv_q_2exp.c', None), ('mpz/cfdiv_r_2exp.c', None), ('mpz/cong.c', None), ('mpz/cong_2exp.c', None), ('mpz/cong_ui.c', None), ('mpz/dive_ui.c', None), ('mpz/divexact.c', None), ('mpz/divis.c', None), ('mpz/divis_2exp.c', None), ('mpz/divis_ui.c', None), ('mpz/fdiv_q.c', None), ('mpz/fdiv_q_ui.c', None), ('mpz/fdiv_qr.c', None), ('mpz/fdiv_qr_ui.c', None), ('mpz/fdiv_r.c', None), ('mpz/fdiv_r_ui.c', None), ('mpz/fdiv_ui.c', None), ('mpz/mod.c', None), ('mpz/tdiv_q.c', None), ('mpz/tdiv_q_2exp.c', None), ('mpz/tdiv_q_ui.c', None), ('mpz/tdiv_qr.c', None), ('mpz/tdiv_qr_ui.c', None), ('mpz/tdiv_r.c', None), ('mpz/tdiv_r_2exp.c', None), ('mpz/tdiv_r_ui.c', None), ('mpz/tdiv_ui.c', None)]
